@@ -99,6 +99,9 @@ class _Marshaller:
         self.python_version = python_version
         # True while we are inside a Python 2 code object and running Python 3
         self.py2_target = False
+        # True while we are inside a Python 3 code object: every Python 3 reads
+        # binary floats, and only those keep the sign and payload of a NaN
+        self.binary_floats = False
 
     def dump_py2_const(self, x):
         """Write `x`, a constant of a Python 2 code object as Python 3 sees it, with
@@ -240,6 +243,8 @@ class _Marshaller:
         dispatch[long] = dump_long  # noqa
 
     def dump_float(self, x):
+        if self.binary_floats:
+            return self.dump_binary_float(x)
         write = self._write
         write(TYPE_FLOAT)
         s = repr(x)
@@ -256,6 +261,8 @@ class _Marshaller:
     dispatch[TYPE_BINARY_FLOAT] = dump_float
 
     def dump_complex(self, x):
+        if self.binary_floats:
+            return self.dump_binary_complex(x)
         write = self._write
         write(TYPE_COMPLEX)
         s = repr(x.real)
@@ -382,6 +389,14 @@ class _Marshaller:
     # FIXME: will probably have to adjust similar to how we
     # adjusted dump_code2
     def dump_code3(self, x):
+        saved_binary_floats = self.binary_floats
+        self.binary_floats = True
+        try:
+            self.dump_code3_fields(x)
+        finally:
+            self.binary_floats = saved_binary_floats
+
+    def dump_code3_fields(self, x):
         self._write(TYPE_CODE)
         self.w_long(x.co_argcount)
         if hasattr(x, "co_posonlyargcount"):
@@ -444,6 +459,14 @@ class _Marshaller:
         # Since 3.11 there is no co_nlocals, and instead of co_varnames,
         # co_freevars and co_cellvars there is one names table with a kind for
         # each name; co_qualname and co_exceptiontable are new.
+        saved_binary_floats = self.binary_floats
+        self.binary_floats = True
+        try:
+            self.dump_code311_fields(x)
+        finally:
+            self.binary_floats = saved_binary_floats
+
+    def dump_code311_fields(self, x):
         self._write(TYPE_CODE)
         self.w_long(x.co_argcount)
         self.w_long(x.co_posonlyargcount)
